@@ -164,3 +164,82 @@ pub mod clock {
         WALL.with(|w| *w.borrow_mut() = f);
     }
 }
+
+pub mod rng {
+    //! Deterministic stand-ins for the OS randomness the crypto module draws (RSA key pair, verify
+    //! tokens), so that a simulated run is a pure function of its seed.
+
+    use rand::rand_core::{TryCryptoRng, TryRng};
+    use std::cell::Cell;
+    use std::convert::Infallible;
+    use std::sync::atomic::{AtomicU64, Ordering};
+
+    static KEY_SEED: AtomicU64 = AtomicU64::new(0);
+
+    thread_local! {
+        static TOKEN_STATE: Cell<Option<u64>> = const { Cell::new(None) };
+    }
+
+    /// SplitMix64; only ever used under simulation.
+    pub struct DetRng(u64);
+
+    impl DetRng {
+        pub fn new(seed: u64) -> Self {
+            Self(seed)
+        }
+        fn next(&mut self) -> u64 {
+            self.0 = self.0.wrapping_add(0x9E37_79B9_7F4A_7C15);
+            let mut z = self.0;
+            z = (z ^ (z >> 30)).wrapping_mul(0xBF58_476D_1CE4_E5B9);
+            z = (z ^ (z >> 27)).wrapping_mul(0x94D0_49BB_1331_11EB);
+            z ^ (z >> 31)
+        }
+    }
+
+    impl TryRng for DetRng {
+        type Error = Infallible;
+        fn try_next_u32(&mut self) -> Result<u32, Infallible> {
+            Ok(self.next() as u32)
+        }
+        fn try_next_u64(&mut self) -> Result<u64, Infallible> {
+            Ok(self.next())
+        }
+        fn try_fill_bytes(&mut self, dst: &mut [u8]) -> Result<(), Infallible> {
+            for chunk in dst.chunks_mut(8) {
+                let x = self.next().to_le_bytes();
+                chunk.copy_from_slice(&x[..chunk.len()]);
+            }
+            Ok(())
+        }
+    }
+
+    impl TryCryptoRng for DetRng {}
+
+    /// Seed for the process-wide RSA key pair (0 = use the OS generator). Set before first use.
+    pub fn set_key_seed(seed: u64) {
+        KEY_SEED.store(seed, Ordering::SeqCst);
+    }
+
+    pub fn key_seed() -> Option<u64> {
+        match KEY_SEED.load(Ordering::SeqCst) {
+            0 => None,
+            s => Some(s),
+        }
+    }
+
+    /// Seeds (or unseeds) the verify tokens issued on this thread.
+    pub fn seed_tokens(seed: Option<u64>) {
+        TOKEN_STATE.with(|t| t.set(seed));
+    }
+
+    pub fn next_token() -> Option<[u8; 32]> {
+        TOKEN_STATE.with(|t| {
+            let state = t.get()?;
+            let mut rng = DetRng::new(state);
+            let mut data = [0u8; 32];
+            let _ = rng.try_fill_bytes(&mut data);
+            t.set(Some(rng.0));
+            Some(data)
+        })
+    }
+}
